@@ -389,9 +389,28 @@ fn count_sum(text: &str) -> (Option<u64>, Option<f64>) {
         Some(f) => f,
         None => return (None, None),
     };
-    (f.samples.iter().find(|s| s.name == "h_two_count").and_then(|s| s.value.parse().ok()), f.samples.iter().find(|s| s.name == "h_two_sum").map(|s| s.value_f64()))
+    let count: Option<u64> = f.samples.iter().find(|s| s.name == "h_two_count").and_then(|s| s.value.parse().ok());
+    // a true histogram must be consistent in itself: cumulative buckets, the +Inf bucket equal to _count
+    if f.ty == "histogram" {
+        let mut prev = 0u64;
+        let mut inf = None;
+        for b in f.samples.iter().filter(|s| s.name == "h_two_bucket") {
+            let n: u64 = b.value.parse().unwrap_or(u64::MAX);
+            if n < prev {
+                return (Some(u64::MAX), None);
+            }
+            prev = n;
+            if b.label("le") == Some("+Inf") {
+                inf = Some(n);
+            }
+        }
+        if inf != count {
+            return (Some(u64::MAX), None);
+        }
+    }
+    (count, f.samples.iter().find(|s| s.name == "h_two_sum").map(|s| s.value_f64()))
 }
-fn e1(ctx: &Ctx, res: &mut PartResult, pb: usize, recorders: usize, prefill: u64, upkeeper: bool) {
+fn e1(ctx: &Ctx, res: &mut PartResult, pb: usize, recorders: usize, prefill: u64, upkeeper: bool, buckets: bool) {
     let mut bodies: Vec<Body<S>> = Vec::new();
     let mut vals: Vec<f64> = Vec::new();
     for t in 0..recorders {
@@ -430,9 +449,11 @@ fn e1(ctx: &Ctx, res: &mut PartResult, pb: usize, recorders: usize, prefill: u64
     }
     let vals2 = vals.clone();
     let scn = Scenario {
-        name: format!("{} recorder thread(s) x 2 record() || drainer (render, run_upkeep, render){}; final render; {} samples (value 0) recorded beforehand so that the racing records straddle the 64-slot block hand-over", recorders, if upkeeper { " || second drainer (run_upkeep x2)" } else { "" }, prefill),
+        name: format!("{} recorder thread(s) x 2 record(){} || drainer (render, run_upkeep, render){}; final render; {} samples (value 0) recorded beforehand so that the racing records straddle the 64-slot block hand-over", recorders, if buckets { " into a bucketed (true) histogram" } else { "" }, if upkeeper { " || second drainer (run_upkeep x2)" } else { "" }, prefill),
         setup: Box::new(move || {
-            let rec = PrometheusBuilder::new().build_recorder();
+            // with buckets the series is a true histogram: drained samples are aggregated by Histogram::record_many
+            // instead of the rolling summary
+            let rec = if buckets { PrometheusBuilder::new().set_buckets(&[1.5, 100.0]).unwrap().build_recorder() } else { PrometheusBuilder::new().build_recorder() };
             let h = rec.handle();
             let hist = rec.register_histogram(&mk_key(7), &META);
             for _ in 0..prefill {
@@ -491,6 +512,7 @@ fn parts(ctx: &Ctx) -> Vec<PartSpec> {
         v.push(PartSpec::new("e1-2recorders-pb2", json!({"e1": 2, "recorders": 2})).cpus("0").budget(150.0));
         v.push(PartSpec::new("e1-2recorders-handover63-pb2", json!({"e1": 2, "recorders": 2, "prefill": 63})).cpus("0").budget(150.0));
         v.push(PartSpec::new("e1-1recorder-2drainers-pb2", json!({"e1": 2, "recorders": 1, "prefill": 2, "upkeeper": true})).cpus("0").budget(150.0));
+        v.push(PartSpec::new("e1-1recorder-2drainers-buckets-pb2", json!({"e1": 2, "recorders": 1, "prefill": 2, "upkeeper": true, "buckets": true})).cpus("0").budget(150.0));
     } else {
         for (ci, _) in CONFIGS.iter().enumerate() {
             for f in 0..n {
@@ -501,6 +523,8 @@ fn parts(ctx: &Ctx) -> Vec<PartSpec> {
         v.push(PartSpec::new("e1-2recorders-pb3", json!({"e1": 3, "recorders": 2})).cpus("1").budget(2400.0));
         v.push(PartSpec::new("e1-2recorders-handover63-pb3", json!({"e1": 3, "recorders": 2, "prefill": 63})).cpus("2").budget(2400.0));
         v.push(PartSpec::new("e1-1recorder-handover62-pb3", json!({"e1": 3, "recorders": 1, "prefill": 62})).cpus("3").budget(2400.0));
+        v.push(PartSpec::new("e1-1recorder-2drainers-buckets-pb3", json!({"e1": 3, "recorders": 1, "prefill": 2, "upkeeper": true, "buckets": true})).cpus("4").budget(2400.0));
+        v.push(PartSpec::new("e1-2recorders-buckets-pb3", json!({"e1": 3, "recorders": 2, "buckets": true})).cpus("5").budget(2400.0));
         v.push(PartSpec::new("e1-1recorder-2drainers-pb3", json!({"e1": 3, "recorders": 1, "prefill": 2, "upkeeper": true})).cpus("4").budget(2400.0));
     }
     v
@@ -511,7 +535,7 @@ fn run(ctx: &Ctx, spec: &PartSpec) -> PartResult {
     if spec.arg["long"].as_bool() == Some(true) {
         e3_long(&mut res);
     } else if let Some(pb) = spec.arg["e1"].as_u64() {
-        e1(ctx, &mut res, pb as usize, spec.arg["recorders"].as_u64().unwrap_or(1) as usize, spec.arg["prefill"].as_u64().unwrap_or(0), spec.arg["upkeeper"].as_bool().unwrap_or(false));
+        e1(ctx, &mut res, pb as usize, spec.arg["recorders"].as_u64().unwrap_or(1) as usize, spec.arg["prefill"].as_u64().unwrap_or(0), spec.arg["upkeeper"].as_bool().unwrap_or(false), spec.arg["buckets"].as_bool().unwrap_or(false));
     } else {
         e3(ctx, &mut res, CONFIGS[spec.arg["cfg"].as_u64().unwrap_or(0) as usize], spec.arg["depth"].as_u64().unwrap_or(4) as usize, spec.arg["first"].as_u64().map(|x| x as usize));
     }
@@ -522,7 +546,7 @@ fn main() {
     driver::main(CheckDef {
         prop: "C07",
         level: "model_checking",
-        rule: "E3: for each of 6 builder configurations (default summaries, global buckets, per-metric override, global labels with one overridden by a key label, custom quantiles, unit suffix) every sequence of the stated depth over 21 operations (counter increment/absolute, gauge set/increment incl. NaN, -0.0, 1e300, histogram record incl. +inf and NaN samples, first/second description of a name with and without a unit, render, run_upkeep; keys incl. equal keys built differently) on a fresh real PrometheusRecorder, plus a final render; every render is done twice (same line set, quantile lines aside), parsed by the strict independent parser and compared with the reference (families, series label sets = global overridden by key, counter totals, gauge bit round trip, _count/_sum conservation, bucket counts, HELP and unit suffix of the first description); a 200-sample multi-block history; E1: all SC interleavings of record() threads with a drainer thread (render, run_upkeep, render), also with 63 samples recorded beforehand (block hand-over) and with a second draining thread (run_upkeep x2, what the periodic upkeep task is to a scrape) (samples are distinct powers of two so every partial sum identifies the set of samples counted); distinct = distinct rendered line sets / outcomes",
+        rule: "E3: for each of 6 builder configurations (default summaries, global buckets, per-metric override, global labels with one overridden by a key label, custom quantiles, unit suffix) every sequence of the stated depth over 21 operations (counter increment/absolute, gauge set/increment incl. NaN, -0.0, 1e300, histogram record incl. +inf and NaN samples, first/second description of a name with and without a unit, render, run_upkeep; keys incl. equal keys built differently) on a fresh real PrometheusRecorder, plus a final render; every render is done twice (same line set, quantile lines aside), parsed by the strict independent parser and compared with the reference (families, series label sets = global overridden by key, counter totals, gauge bit round trip, _count/_sum conservation, bucket counts, HELP and unit suffix of the first description); a 200-sample multi-block history; E1: all SC interleavings of record() threads with a drainer thread (render, run_upkeep, render), also with 63 samples recorded beforehand (block hand-over) and with a second draining thread (run_upkeep x2, what the periodic upkeep task is to a scrape), also into a bucketed series (true histogram: cumulative buckets consistent, +Inf bucket = _count in every render) (samples are distinct powers of two so every partial sum identifies the set of samples counted); distinct = distinct rendered line sets / outcomes",
         assumptions: &["E1: sequential consistency, one registry shard", "dyadic sample values so that sums are exact in any order"],
         parts,
         run,
